@@ -1,8 +1,8 @@
 /-
 C07 — model of the mutators of a data-class instance.
 
-`Schema` (dict-based, utype/schema.py:222-513 after `fixes/C07-mutators.patch`) and `DataClass`
-(attribute-based, utype/parser/cls.py:259-342), hand-written branch for branch.  Tied to the code by the
+`Schema` (dict-based, utype/schema.py:222-517 after `fixes/C07-mutators.patch`) and `DataClass`
+(attribute-based, utype/parser/cls.py:259-343), hand-written branch for branch.  Tied to the code by the
 correspondence run (harness/c07.py): the same operation sequences run on real instances and on `hrun`
 below and both views of every instance are compared after every operation.
 
@@ -117,7 +117,7 @@ def getField (C : Cls) (k : String) : Option Field := C.fields.find? (fun f => f
 
 def fieldByAtt (C : Cls) (a : String) : Option Field := C.fields.find? (fun f => f.attname == a)
 
-/-- `Schema.__field_getter__` for a declared (non-property) field, schema.py:280-304 -/
+/-- `Schema.__field_getter__` for a declared (non-property) field, schema.py:283-307 -/
 def fieldGet (W : World V) (s : State V) (f : Field) : Option V :=
   match s.data.get f.name with
   | some v => some v
@@ -131,7 +131,7 @@ the attribute view; an unavailable dependency raises AttributeError inside the g
 def compute (C : Cls) (W : World V) (s : State V) (p : Field) : Option V :=
   (p.deps.mapM (fun d => (getField C d).bind (fieldGet W s))).bind (W.getter p.name)
 
-/-- the attribute view `obj.<attname>`: `Schema.__field_getter__`, schema.py:280-304 (none: AttributeError) -/
+/-- the attribute view `obj.<attname>`: `Schema.__field_getter__`, schema.py:283-307 (none: AttributeError) -/
 def getattr (C : Cls) (W : World V) (s : State V) (f : Field) : Option V :=
   if f.isProp then
     match s.data.get f.name with
@@ -142,84 +142,85 @@ def getattr (C : Cls) (W : World V) (s : State V) (f : Field) : Option V :=
       | none => compute C W s f
   else fieldGet W s f
 
-/-- the early return of `__coerce_property__`, schema.py:226-235: some dependency is neither under the
+/-- the early return of `__coerce_property__`, schema.py:226-238: some dependency is neither under the
 keys nor (for a no_output dependency) in `__dict__` -/
 def blocked (C : Cls) (s : State V) (p : Field) : Bool :=
   !(p.deps.all s.data.has) &&                                     -- :226
-    p.deps.any (fun d => !s.data.has d && (match getField C d with      -- :229-235
+    p.deps.any (fun d => !s.data.has d && (match getField C d with      -- :229-238
       | none => true
       | some df => !s.attrs.has df.attname))
 
-/-- `Schema.__coerce_property__`, schema.py:222-264 -/
+/-- `Schema.__coerce_property__`, schema.py:222-267 -/
 def coerce (C : Cls) (W : World V) (s : State V) (p : Field) : State V :=
   if p.noOutput then s                                            -- :223
   else if blocked C s p then s
   else match compute C W s p with
-    | none => s                                                   -- :236-243 getter failed: warn, keep
-    | some v => { s with data := s.data.set p.name v }            -- :252-253
+    | none => s                                                   -- :240-246 getter failed: warn, keep
+    | some v => { s with data := s.data.set p.name v }            -- :255-256
 
-/-- schema.py:339-344 -/
+/-- schema.py:343-348 -/
 def coerceDependants (C : Cls) (W : World V) (s : State V) (f : Field) : State V :=
   f.dependants.foldl (fun s q =>
     match getField C q with
     | some p => if p.isProp then coerce C W s p else s
     | none => s) s
 
-/-- `Schema.__field_setter__`, schema.py:313-344 -/
+/-- `Schema.__field_setter__`, schema.py:316-348.  The context is made with `force_error` and `raise_error()`
+follows the conversion (:323-325), so `Options.collect_errors` makes no difference here. -/
 def fieldSetter (C : Cls) (W : World V) (s : State V) (f : Field) (v : V) : State V × Res V :=
-  if C.opts.immutable || f.immutable then (s, .err .update)       -- :314-318
+  if C.opts.immutable || f.immutable then (s, .err .update)       -- :317-321
   else if f.isProp then
     -- a getter-only property has no input type (the value passes `parse_value` unchanged) and no
-    -- setter: the assignment only forces a recomputation (:323-329)
+    -- setter: the assignment only forces a recomputation (:327-333)
     (coerceDependants C W (coerce C W s f) f, .ok none)
-  else match W.parse f.name v with                                -- :320-321
+  else match W.parse f.name v with                                -- :323-325
     | none => (s, .err .parse)
     | some pv =>
       let s1 : State V :=
-        if f.noOutput then { data := s.data.del f.name, attrs := s.attrs.set f.attname pv }   -- :331-335
-        else { s with data := s.data.set f.name pv }                                          -- :337
+        if f.noOutput then { data := s.data.del f.name, attrs := s.attrs.set f.attname pv }   -- :335-339
+        else { s with data := s.data.set f.name pv }                                          -- :341
       (coerceDependants C W s1 f, .ok none)
 
-/-- `Schema.__setitem__`, schema.py:346-366 -/
+/-- `Schema.__setitem__`, schema.py:350-371 -/
 def setitem (lg : Bool) (C : Cls) (W : World V) (s : State V) (k : String) (v : V) : State V × Res V :=
   if C.opts.immutable then (s, .err .update)
   else match getField C k with
     | some f => fieldSetter C W s f v
     | none =>
-      if C.excluded.contains k then (s, .err .update)             -- :355-358
+      if C.excluded.contains k then (s, .err .update)             -- :359-362
       else match C.opts.addition with
         | .forbid => (s, .err .parse)                             -- base.py:394-396 ExceedError
-        | .ignore => (s, .ok none)                                -- base.py:397-399, schema.py:361-363
+        | .ignore => (s, .ok none)                                -- base.py:397-399, schema.py:366-368
         | .allow => ({ s with data := s.data.set k v }, .ok none) -- base.py:403-404
         | .typed =>
           match W.parseAdd v with
           | none => (s, .err .parse)
-          -- :364 stores the parsed addition (the unrepaired code stored the raw value)
+          -- :369 stores the parsed addition (the unrepaired code stored the raw value)
           | some a => ({ s with data := s.data.set k (if lg then v else a) }, .ok none)
 
-/-- `Schema.__field_deleter__`, schema.py:368-394 -/
+/-- `Schema.__field_deleter__`, schema.py:373-399 -/
 def fieldDeleter (lg : Bool) (C : Cls) (s : State V) (f : Field) : State V × Res V :=
-  if C.opts.immutable || f.immutable then (s, .err .delete)       -- :369-373
-  else if f.required && !C.opts.ignoreRequired then (s, .err .delete)   -- :381-384
+  if C.opts.immutable || f.immutable then (s, .err .delete)       -- :374-378
+  else if f.required && !C.opts.ignoreRequired then (s, .err .delete)   -- :386-389
   else if !s.data.has f.name then
-    (s, if C.opts.ignoreDeleteNonexistent then .ok none else .err .delete)   -- :385-390
+    (s, if C.opts.ignoreDeleteNonexistent then .ok none else .err .delete)   -- :390-395
   else
     let attrs := if lg then (if s.attrs.has f.name then s.attrs.del f.attname else s.attrs)
-                 else s.attrs.del f.attname                       -- :393-394
+                 else s.attrs.del f.attname                       -- :398-399
     ({ data := s.data.del f.name, attrs := attrs }, .ok none)
 
-/-- `Schema.__delitem__`, schema.py:396-405 -/
+/-- `Schema.__delitem__`, schema.py:401-410 -/
 def delitem (lg : Bool) (C : Cls) (s : State V) (k : String) : State V × Res V :=
   if C.opts.immutable then (s, .err .delete)
   else match getField C k with
     | some f => fieldDeleter lg C s f
     | none => if s.data.has k then ({ s with data := s.data.del k }, .ok none) else (s, .err .key)
 
-/-- `Schema.pop`, schema.py:418-441 -/
+/-- `Schema.pop`, schema.py:422-445 -/
 def pop (lg : Bool) (C : Cls) (s : State V) (k : String) (d : Option V) : State V × Res V :=
   if C.opts.immutable then (s, .err .delete)
   else match getField C k with
-    | none =>                                                     -- :425-426 (the default is not passed on)
+    | none =>                                                     -- :429-430 (the default is not passed on)
       match s.data.get k with
       | some v => ({ s with data := s.data.del k }, .ok (some v))
       | none => (s, .err .key)
@@ -233,7 +234,7 @@ def pop (lg : Bool) (C : Cls) (s : State V) (k : String) (d : Option V) : State 
           | some dv => (s, .ok (some dv))
           | none => (s, .err .key)
 
-/-- `Schema.popitem`, schema.py:407-416 -/
+/-- `Schema.popitem`, schema.py:412-420 -/
 def popitem (lg : Bool) (C : Cls) (s : State V) : State V × Res V :=
   if C.opts.immutable then (s, .err .delete)
   else if lg then
@@ -244,7 +245,7 @@ def popitem (lg : Bool) (C : Cls) (s : State V) : State V × Res V :=
     | none => (s, .err .key)
     | some k => pop lg C s k none
 
-/-- the loop of `Schema.update`, schema.py:448-449: stops at the first key that raises -/
+/-- the loop of `Schema.update`, schema.py:452-454: stops at the first key that raises -/
 def setitems (lg : Bool) (C : Cls) (W : World V) : State V → List (String × V) → State V × Res V
   | s, [] => (s, .ok none)
   | s, (k, v) :: kvs =>
@@ -255,19 +256,19 @@ def setitems (lg : Bool) (C : Cls) (W : World V) : State V → List (String × V
 def update (lg : Bool) (C : Cls) (W : World V) (s : State V) (kvs : List (String × V)) : State V × Res V :=
   if C.opts.immutable then (s, .err .update) else setitems lg C W s kvs
 
-/-- `key in self`, schema.py:274-278 -/
+/-- `key in self`, schema.py:277-281 -/
 def contains (C : Cls) (s : State V) (k : String) : Bool :=
   match getField C k with
   | some f => s.data.has f.name
   | none => s.data.has k
 
-/-- `self[key]`, schema.py:306-311 -/
+/-- `self[key]`, schema.py:309-314 -/
 def getitem (C : Cls) (s : State V) (k : String) : Option V :=
   match getField C k with
   | some f => s.data.get f.name
   | none => s.data.get k
 
-/-- `Schema.setdefault`, schema.py:464-474 (before the repair: `dict.setdefault`) -/
+/-- `Schema.setdefault`, schema.py:473-482 (before the repair: `dict.setdefault`) -/
 def setdefault (lg : Bool) (C : Cls) (W : World V) (s : State V) (k : String) (v : V) : State V × Res V :=
   if lg then
     match s.data.get k with
@@ -278,7 +279,7 @@ def setdefault (lg : Bool) (C : Cls) (W : World V) (s : State V) (k : String) (v
     | (s', .err e) => (s', .err e)
     | (s', .ok _) => (s', .ok (some ((getitem C s' k).getD v)))
 
-/-- `Schema.clear`, schema.py:494-511 -/
+/-- `Schema.clear`, schema.py:500-517 -/
 def clear (lg : Bool) (C : Cls) (s : State V) : State V × Res V :=
   if C.opts.immutable then (s, .err .delete)
   else if C.fields.any (fun f => f.immutable || (f.required && !C.opts.ignoreRequired)) then (s, .err .delete)
@@ -288,7 +289,7 @@ def clear (lg : Bool) (C : Cls) (s : State V) : State V × Res V :=
     ({ data := [], attrs := attrs }, .ok none)
 
 /-- attribute assignment `obj.a = v`: a field's attribute is the property installed by
-`assign_properties` (cls.py:311-342); any other name is a plain instance attribute -/
+`assign_properties` (cls.py:312-343); any other name is a plain instance attribute -/
 def setattr (C : Cls) (W : World V) (s : State V) (a : String) (v : V) : State V × Res V :=
   match fieldByAtt C a with
   | some f => if f.isProp then (s, .err .attr) else fieldSetter C W s f v    -- getter-only: no setter
@@ -308,17 +309,17 @@ def step (lg : Bool) (C : Cls) (W : World V) (s : State V) : Op V → State V ×
   | .update kvs => update lg C W s kvs
   | .ior kvs =>
     if lg then (kvs.foldl (fun s kv => { s with data := s.data.set kv.1 kv.2 }) s, .ok none)   -- dict.__ior__
-    else update lg C W s kvs                                       -- schema.py:476-479
+    else update lg C W s kvs                                       -- schema.py:484-487
   | .pop k d => pop lg C s k d
   | .popitem => popitem lg C s
   | .setdefault k v => setdefault lg C W s k v
   | .clear => clear lg C s
 
-/-- `Schema.__post_init__`, schema.py:266-272: the properties are computed once, in field order -/
+/-- `Schema.__post_init__`, schema.py:269-275: the properties are computed once, in field order -/
 def postInit (C : Cls) (W : World V) (s : State V) : State V :=
   (C.fields.filter (·.isProp)).foldl (coerce C W) s
 
-/-! ### several instances: `copy()` (schema.py:484-492) gives an instance with its own `__dict__` -/
+/-! ### several instances: `copy()` (schema.py:492-498) gives an instance with its own `__dict__` -/
 
 inductive HOp (V : Type) where
   | on (i : Nat) (op : Op V)
@@ -344,7 +345,8 @@ def htrace (lg : Bool) (C : Cls) (W : World V) : List (State V) → List (HOp V)
 
 /-! ### `DataClass` (attribute-based): only attribute assignment and deletion exist -/
 
-/-- the setter built by `ClassParser.make_setter`, cls.py:259-273 -/
+/-- the setter built by `ClassParser.make_setter`, cls.py:259-274 (`raise_error()` at :269: `collect_errors`
+makes no difference) -/
 def dcSetattr (C : Cls) (W : World V) (s : State V) (a : String) (v : V) : State V × Res V :=
   match fieldByAtt C a with
   | none => ({ s with attrs := s.attrs.set a v }, .ok none)
@@ -354,7 +356,7 @@ def dcSetattr (C : Cls) (W : World V) (s : State V) (a : String) (v : V) : State
       | none => (s, .err .parse)
       | some pv => ({ s with attrs := s.attrs.set f.attname pv }, .ok none)
 
-/-- the deleter built by `ClassParser.make_deleter`, cls.py:275-299 -/
+/-- the deleter built by `ClassParser.make_deleter`, cls.py:276-300 -/
 def dcDelattr (C : Cls) (s : State V) (a : String) : State V × Res V :=
   match fieldByAtt C a with
   | none => if s.attrs.has a then ({ s with attrs := s.attrs.del a }, .ok none) else (s, .err .attr)
@@ -372,10 +374,10 @@ def dcStep (C : Cls) (W : World V) (s : State V) : Op V → State V × Res V
 def dcRun (C : Cls) (W : World V) (s : State V) (ops : List (Op V)) : State V :=
   ops.foldl (fun s op => (dcStep C W s op).1) s
 
-/-- the getter built by `ClassParser.make_getter`, cls.py:301-309 -/
+/-- the getter built by `ClassParser.make_getter`, cls.py:302-310 -/
 def dcGetattr (s : State V) (f : Field) : Option V := s.attrs.get f.attname
 
-/-- `name in obj` made by `make_contains(output_only=True)`, cls.py:366-382 -/
+/-- `name in obj` made by `make_contains(output_only=True)`, cls.py:367-383 -/
 def dcContains (C : Cls) (s : State V) (k : String) : Bool :=
   match getField C k with
   | none => false
